@@ -105,6 +105,10 @@ func amountClass(a uint64) string {
 
 func (c *c04) treeWorkload(n int, shape ref.TreeShape) {
 	tc := newTwoChain(5*time.Second, L2EnvOpts{})
+	if n%3 == 0 {
+		tc.L1.EnableShadow(uint64(n))
+		tc.L2.EnableShadow(uint64(n))
+	}
 	depositor := tc.L1.Users[0]
 	// fund three L2 users through real deposits, and create n/4 refunds
 	nRefund := n / 4
